@@ -323,7 +323,7 @@ class UdpLoop(VLoop):
             dl.popleft()
         return not dl or when < dl[0]
 
-    def enabled_events(self, alpha):
+    def enabled_events(self, alpha, horizon_t=None):
         """[(kind, k, cost, label)] in canonical order (A.1); element 0 always has cost 0."""
         ev = []
         ready = bool(self._ready)
@@ -346,6 +346,8 @@ class UdpLoop(VLoop):
             pending = ready or bool(self.inflight)
             if not pending:
                 ev.append(('TIMER', None, 0, 'T'))
+            elif horizon_t is not None and h._when > horizon_t:
+                pass        # a timer beyond the observation horizon cannot overtake pending work inside the horizon
             elif alpha.timer == 'any' or (alpha.timer == 'hit' and self.timer_allowed_hit(h._when)):
                 ev.append(('TIMER', None, 1, 'T'))
         if alpha.drop or alpha.late or alpha.dup:
@@ -426,7 +428,7 @@ class UdpLoop(VLoop):
                     return 'horizon_time'
                 self.fire_timer()
                 continue
-            ev = self.enabled_events(alpha)
+            ev = self.enabled_events(alpha, horizon_t)
             if not ev:
                 if not self._ready and not self.inflight and self.next_timer() is None:
                     return 'deadlock'
